@@ -69,6 +69,7 @@ func main() {
 	}
 	for _, id := range ids {
 		r := core.NewRun(id, *tier, w, known)
+		r.VerifDir = *verif
 		func() {
 			defer func() {
 				if x := recover(); x != nil {
